@@ -85,11 +85,9 @@ func NewBaseJobWorker(ctx context.Context, semSize int64) (*BaseJobWorker, error
 	}
 
 	wk.waitFunc = func() error {
-		if err := sem.Acquire(wk.ctx(), semSize); err != nil {
-			if cerr := context.Cause(wk.ctx()); cerr != nil {
-				return errors.WithStack(cerr)
-			}
-
+		// NOTE the canceled context does not stop the running jobs; wait them
+		// all
+		if err := sem.Acquire(context.Background(), semSize); err != nil {
 			return errors.WithStack(err)
 		}
 
